@@ -126,7 +126,7 @@ def _curve_shapes(tier):
                 out.append(dict(p=p, mult=mult, rational=False))
         if tier == 'quick':
             out.append(dict(p=p, mult=[1, 1, 1], rational=False))
-    for p, mult in ((1, [1]), (2, [1])) + (((2, [2]), (3, [1, 2]), (2, [1, 1])) if tier == 'thorough' else ()):
+    for p, mult in ((1, [1]), (2, [1])) + (((2, [2]), (2, [1, 1])) if tier == 'thorough' else ()):
         out.append(dict(p=p, mult=mult, rational=True))
     return out
 
@@ -197,7 +197,6 @@ def _split_surf_shapes(tier):
                 dict(pu=3, pv=2, mu=[1], mv=[2, 1], d='v', rational=False),
                 dict(pu=2, pv=2, mu=[2, 1], mv=[1, 1], d='u', rational=False),
                 dict(pu=2, pv=2, mu=[1, 1], mv=[1, 2], d='v', rational=False),
-                dict(pu=2, pv=2, mu=[1], mv=[], d='u', rational=True),
                 dict(pu=1, pv=2, mu=[], mv=[], d='v', rational=True),
                 dict(pu=1, pv=1, mu=[], mv=[1], d='v', rational=True)]
     return out
@@ -252,9 +251,10 @@ def _dec_surf_shapes(tier):
         out += [dict(pu=2, pv=1, mu=[1, 1], mv=[1], dirs='uv', rational=False),
                 dict(pu=3, pv=2, mu=[1, 2], mv=[1, 1], dirs='uv', rational=False),
                 dict(pu=3, pv=2, mu=[3], mv=[2], dirs='uv', rational=False),
-                dict(pu=2, pv=2, mu=[1, 1], mv=[2, 1], dirs='uv', rational=False),
-                dict(pu=1, pv=2, mu=[1], mv=[], dirs='uv', rational=True),
-                dict(pu=2, pv=2, mu=[1], mv=[1], dirs='uv', rational=True)]
+                dict(pu=2, pv=2, mu=[1, 1], mv=[1], dirs='uv', rational=False),
+                dict(pu=2, pv=2, mu=[1, 1], mv=[2], dirs='uv', rational=False),
+                dict(pu=2, pv=2, mu=[2], mv=[2, 1], dirs='uv', rational=False),
+                dict(pu=1, pv=2, mu=[1], mv=[], dirs='uv', rational=True)]
     return out
 
 
